@@ -219,10 +219,15 @@ class Filenames(object):
                         value = currentns[key].split()
                         newvalue = []
                         for i in range(int(format)):
-                            newvalue.append(value.pop(0))
                             if not value:
                                 break
-                        currentns[key] = ' '.join(newvalue)
+                            newvalue.append(value.pop(0))
+                        if newvalue:
+                            currentns[key] = ' '.join(newvalue)
+                        else:
+                            # No word to name the file after (an empty
+                            # title): this alternative does not apply
+                            del currentns[key]
                 for key, value in list(currentns.items()):
                     if self.charsub:
                         for char in self.charsub[0]:
